@@ -37,3 +37,16 @@ Theorem C08_own_worker : forall g p sched evs w i u pre l,
   In evs (snd (run_schedule g (init_state g p) sched)) -> In (EStart w i u pre l) evs -> own g w i = true.
 Proof. intros g p sched evs w i u pre l H1 H2. destruct (all_starts_ok g p sched evs w i u pre l H1 H2) as [H _]. exact H. Qed.
 Print Assumptions C08_own_worker.
+
+(* ---- told where the setup lives, for EVERY graph, initial pool population and schedule (Proofs/TraverseLoc.v) ---- *)
+From I2N Require Import Proofs.TraverseLoc.
+
+(* every worker named as a source in the get locations an execution is started with has a PASS result on one of that
+   test's parents - the test is never told to fetch from a worker that did not produce the state *)
+Theorem C08_named_sources_are_producers : forall g p sched evs w i u pre l o v,
+  let r := run_schedule g (init_state g p) sched in
+  In evs (snd r) -> In (EStart w i u pre l) evs -> In (o, Some v) l ->
+  exists par, In par (n_parents (nd g i)) /\
+    exists res, In res (shared_results g (fst r) par) /\ r_status res = SPass /\ n_first_worker (nd g (r_node res)) = Some v.
+Proof. exact named_sources_are_producers. Qed.
+Print Assumptions C08_named_sources_are_producers.
